@@ -102,6 +102,9 @@ def _run(case, fault_at=None, fault_point="linear_solve", fault_exc="runtime", s
             st_ = wass.inject_fault(w1, fault_at, fault_point, fault_exc, sticky) if fault_at is not None else None
             d, info = w1(i1, i2)
             cap["images"] = (i1, i2)
+            # observations of the run that identify two open findings (see known_findings.json)
+            tags["amg_converged"] = not cap.get("amg_unconverged", False)
+            tags["anderson_at_noise_floor"] = wass.anderson_at_noise_floor(o, info)
         except tuple(c for c in wass.FAULT_TYPES.values() if c) + (wass.InjectedFault,) as e:
             if fault_at is None or "injected failure" not in str(e):
                 e.vf_tags = tags
